@@ -319,7 +319,7 @@ Qed.
 Lemma restore_keeps s : PInv s -> PInv (restore nch s).
 Proof.
   intros [Hs Hp Hk]. unfold restore.
-  set (k0 := fun h => match inv s h with Some _ => true | None => false end).
+  set (k0 := fun h => match inv s h with Some _ => true | None => pre s h end).
   pose proof (restore_fold s (chan_ids nch) k0 (fun _ _ => (0, 0)) (chan_ids_nodup nch)) as [R1 [R2 R3]].
   destruct (fold_left _ _ _) as [k l]. cbn [fst snd] in *.
   assert (Hled : forall h c, c < N.of_nat nch -> l h c = led s h c).
@@ -362,9 +362,9 @@ Proof.
     destruct HI as [Hs Hp Hk]. specialize (Hf eq_refl). constructor.
     + exact Hs.
     + intros h' a' Ha. cbn [inv] in Ha. unfold upd in Ha.
-      change (Payments.in_total nch (mkPN (upd (inv s) h (Some a)) (upd (known s) h true) (led s) (chans s)) h')
+      change (Payments.in_total nch (mkPN (upd (inv s) h (Some a)) (upd (known s) h true) (led s) (chans s) (pre s)) h')
         with (in_total s h').
-      change (Payments.out_total nch (mkPN (upd (inv s) h (Some a)) (upd (known s) h true) (led s) (chans s)) h')
+      change (Payments.out_total nch (mkPN (upd (inv s) h (Some a)) (upd (known s) h true) (led s) (chans s) (pre s)) h')
         with (out_total s h').
       destruct (h' =? h) eqn:E.
       * apply N.eqb_eq in E. subst h'. rewrite Hf. lia.
@@ -383,7 +383,7 @@ Proof.
     destruct (negb (validate_payments nch max_fee_msat max_fee_pct s ch (Some c) None)) eqn:E2; cbn [fst]; [exact HI|].
     apply negb_false_iff in E1, E2.
     apply update_keeps; try assumption; [apply in_range_lt; exact E1 | |]; intros h; reflexivity.
-  - cbn [fst]. exact HI.
+  - cbn [fst]. destruct HI as [Hs Hp Hk]. constructor; [exact Hs | exact Hp | exact Hk].
   - (* heartbeat: only records without approval are dropped *)
     cbn [fst]. destruct HI as [Hs Hp Hk]. constructor.
     + exact Hs.
@@ -412,6 +412,84 @@ Theorem prun_keeps ops : forall s, PInv s -> fresh_history s ops -> PInv (prun n
 Proof.
   induction ops as [|o ops IH]; intros s HI Hf; cbn [prun]; [exact HI|].
   destruct Hf as [Hf Hr]. apply IH; [apply pstep_keeps; assumption | exact Hr].
+Qed.
+
+(** ** preimages: a payment record that carries a preimage is never lost by a restart *)
+
+Definition PreKnown (s : pnode) : Prop := forall h, pre s h = true -> known s h = true.
+
+Lemma apply_payments_known s ch nh nc h :
+  known s h = true -> known (apply_payments s ch nh nc) h = true.
+Proof.
+  intros Hk. unfold apply_payments.
+  pose proof (fold_apply (chans s ch) nh nc ch (sum_keys (chans s ch) nh nc) (known s) (led s)) as [F1 _].
+  destruct (fold_left _ _ _) as [k l]. cbn [fst] in F1. cbn [known]. rewrite F1.
+  destruct (existsb _ _); [reflexivity | exact Hk].
+Qed.
+
+Lemma apply_payments_pre s ch nh nc : pre (apply_payments s ch nh nc) = pre s.
+Proof.
+  unfold apply_payments. destruct (fold_left _ _ _) as [k l]. reflexivity.
+Qed.
+
+Lemma restore_known_of_pre s h : pre s h = true -> known (restore nch s) h = true.
+Proof.
+  intros Hp. unfold restore.
+  set (k0 := fun h => match inv s h with Some _ => true | None => pre s h end).
+  pose proof (restore_fold s (chan_ids nch) k0 (fun _ _ => (0, 0)) (chan_ids_nodup nch)) as [_ [R2 _]].
+  destruct (fold_left _ _ _) as [k l]. cbn [fst known] in *. apply R2. unfold k0.
+  destruct (inv s h); [reflexivity | exact Hp].
+Qed.
+
+Lemma restore_pre s : pre (restore nch s) = pre s.
+Proof. unfold restore. destruct (fold_left _ _ _) as [k l]. reflexivity. Qed.
+
+Lemma pstep_pre_known s o : PreKnown s -> PreKnown (fst (pstep s o)).
+Proof.
+  intros HP. destruct o as [h a|ch c ok|ch c ok|ch|hf| |]; cbn [Payments.pstep].
+  - destruct (inv s h); cbn [fst]; [exact HP|]. intros x Hx. cbn [pre known] in *. unfold upd.
+    destruct (x =? h); [reflexivity | apply HP; exact Hx].
+  - destruct (negb (in_range nch ch) || negb ok); cbn [fst]; [exact HP|].
+    destruct (negb (validate_payments nch max_fee_msat max_fee_pct s ch None (Some c))); cbn [fst]; [exact HP|].
+    intros x Hx. unfold set_chan in *. cbn [pre known] in *. rewrite apply_payments_pre in Hx.
+    apply apply_payments_known, HP, Hx.
+  - destruct (negb (in_range nch ch) || negb ok); cbn [fst]; [exact HP|].
+    destruct (negb (validate_payments nch max_fee_msat max_fee_pct s ch (Some c) None)); cbn [fst]; exact HP.
+  - destruct (negb (in_range nch ch)); cbn [fst]; [exact HP|].
+    destruct (hnxt (chans s ch)) as [c|]; cbn [fst]; [|exact HP].
+    destruct (negb (validate_payments nch max_fee_msat max_fee_pct s ch (Some c) None)); cbn [fst]; [exact HP|].
+    intros x Hx. unfold set_chan in *. cbn [pre known] in *. rewrite apply_payments_pre in Hx.
+    apply apply_payments_known, HP, Hx.
+  - cbn [fst]. intros x Hx. cbn [pre known] in *. apply orb_true_iff in Hx. destruct Hx as [Hx|Hx]; [apply HP; exact Hx|].
+    apply andb_true_iff in Hx. destruct Hx as [E Hk]. apply N.eqb_eq in E. subst x. exact Hk.
+  - cbn [fst]. intros x Hx. cbn [pre known] in *. apply andb_true_iff in Hx. destruct Hx as [Hx Hn].
+    rewrite (HP x Hx), Hn. reflexivity.
+  - cbn [fst]. intros x Hx. rewrite restore_pre in Hx. apply restore_known_of_pre. exact Hx.
+Qed.
+
+Lemma PreKnown_init : PreKnown pinit.
+Proof. intros h H. discriminate. Qed.
+
+Lemma prun_pre_known ops : forall s, PreKnown s -> PreKnown (prun nch max_fee_msat max_fee_pct s ops).
+Proof.
+  induction ops as [|o ops IH]; intros s HP; cbn [prun]; [exact HP|].
+  apply IH, pstep_pre_known, HP.
+Qed.
+
+(** a preimage handed over for a hash that has a payment record is recorded, and the record and
+    its preimage are there after every later restart, as long as value is in flight or an
+    approval exists (a record that carries nothing is pruned by the heartbeat) *)
+Lemma fulfil_then_restart s h :
+  known s h = true ->
+  let s1 := fst (pstep s (PFulfil h)) in
+  let s2 := fst (pstep s1 PRestart) in
+  pre s1 h = true /\ pre s2 h = true /\ known s2 h = true.
+Proof.
+  intros Hk s1 s2.
+  assert (H1 : pre s1 h = true).
+  { subst s1. cbn [Payments.pstep fst pre]. rewrite N.eqb_refl, Hk. apply orb_true_r. }
+  split; [exact H1|]. subst s2. cbn [Payments.pstep fst]. rewrite restore_pre.
+  split; [exact H1 | apply restore_known_of_pre; exact H1].
 Qed.
 
 (** an update that brings outgoing value for a hash without invoice and without a payment
